@@ -42,7 +42,7 @@ def episode_for(project, rng, n_rules=10):
         kw = {"excl": excl} if excl else {}
         s0 = ep.scan(mpath=mp, ext=ext, **kw)
         below = [m for m in mods if m[:len(mp)] == mp]
-        ks = list(range(1, max(2, depth - len(mp) + 1)))
+        ks = list(range(0, max(2, depth - len(mp) + 1)))      # level_limit 0: everything is module_path itself
         if rng.random() < 0.3:
             ks.append(depth + rng.randint(1, 3))          # a limit below every module: nothing is truncated
         for k in ks:
@@ -94,8 +94,8 @@ def run(ctx):
            "rule": "one case = <project, module_path, k>: the limited scan compared with the quotient of the unlimited "
                    "one, plus strict rules above the limit evaluated on both",
            "exhaustive": False,
-           "exhaustive_part": "MC_Scan!QuotientVerdict on every project of the bounded model x k in 1..2 x all single strict "
-                              "rules above the limit (TLC); emitted projects replayed with k in 1..depth",
+           "exhaustive_part": "MC_Scan!QuotientVerdict on every project of the bounded model x k in 0..2 x all single strict "
+                              "rules above the limit (TLC); emitted projects replayed with k in 0..depth",
            "samples": [episodes[0][1:4]]}
     return CheckResult(fails=fails, coverage=cov, assumptions=ASSUMPTIONS)
 
